@@ -145,7 +145,7 @@ def isSimpleIdent (s : String) : Bool :=
 
 /-- `_quote_identifier` (duckdb dialect) -/
 def quoteIdent (s : String) : String :=
-  if isSimpleIdent s then s else "\"" ++ s.replace "\"" "\"\"" ++ "\""
+  if isSimpleIdent s then s else "\"" ++ Str.replace s "\"" "\"\"" ++ "\""
 
 /-- qualified output column name of a CTE, as `_cte_ref` writes it -/
 def Cte.qual (c : Cte) (alias : String) : String := quoteIdent c.name ++ "." ++ quoteIdent alias
